@@ -46,6 +46,9 @@ type IStep struct {
 	SatIdx   uint64   `json:"sat_idx,omitempty"`
 	Extra    pbt.Hex  `json:"extra,omitempty"`   // script of the output that takes the satoshis before the ordinal
 	PreOut   bool     `json:"pre_out,omitempty"` // the transaction already has an output
+	// RetryAs > 0 (ninth round; zero-value earlier input only): after the refused call the caller
+	// gives every zero-value input this value and calls again, on the same transaction with the same arguments
+	RetryAs uint64 `json:"retry_as,omitempty"`
 }
 
 // ISeq is one case.
@@ -181,7 +184,26 @@ func checkISeq(ctx *pbt.Ctx, c ISeq) error {
 				if !errors.Is(err, bt.ErrInputSatsZero) {
 					return fmt.Errorf("step %d: InscribeSpecificOrdinal(input %d) with a zero-value earlier input (values %v) returned %v, documented: ErrInputSatsZero", si, s.InputIdx, s.InSats, err)
 				}
-				continue
+				// a refused call followed by a second attempt on the same objects: whether the second
+				// call goes through is not asserted; a call that does is held to the documented result
+				if s.RetryAs == 0 || s.RetryAs > 1<<50 {
+					continue
+				}
+				s.InSats = append([]uint64{}, s.InSats...)
+				for i, v := range s.InSats {
+					if v == 0 {
+						s.InSats[i] = s.RetryAs
+						tx.Inputs[i].PreviousTxSatoshis = s.RetryAs
+					}
+				}
+				if s.SatIdx >= s.InSats[s.InputIdx] {
+					continue
+				}
+				if err = tx.InscribeSpecificOrdinal(args, s.InputIdx, s.SatIdx, script(s.Extra)); err != nil {
+					ctx.Label("via:specific:retry-after-zero-earlier:refused")
+					continue
+				}
+				ctx.Label("via:specific:retry-after-zero-earlier:completed")
 			case "zero-earlier+outputs":
 				if !errors.Is(err, bt.ErrInputSatsZero) && !errors.Is(err, bt.ErrOutputsNotEmpty) {
 					return fmt.Errorf("step %d: InscribeSpecificOrdinal with a zero-value earlier input and existing outputs returned %v", si, err)
@@ -352,6 +374,7 @@ func genISeq(t *rapid.T) ISeq {
 			case 1:
 				if s.InputIdx > 0 {
 					s.InSats[rapid.IntRange(0, int(s.InputIdx)-1).Draw(t, "zero_at")] = 0
+					s.RetryAs = rapid.SampledFrom([]uint64{0, 1, 2, 1000, 1 << 40}).Draw(t, "retry_as")
 				}
 			}
 		}
